@@ -800,7 +800,7 @@ class Reaction:
                             raise RuntimeError(f"invalid reference phase '{phase_ref}'")
             Hfs = Hfs + H_latent
         if self._basis == 'wt': Hfs = Hfs / self.MWs
-        return self._X * (Hfs * stoichiometry).sum()
+        return self.X * (Hfs * stoichiometry).sum()
     
     @property
     def X(self):
@@ -1821,7 +1821,7 @@ class KineticReaction:
     )
     
     _basis = 'mol'
-    _X = 1
+    X = _X = 1
     reactant = Reaction.reactant
     istoichiometry = Reaction.istoichiometry
     stoichiometry = Reaction.stoichiometry
